@@ -292,6 +292,35 @@ theorem mutex_quiescent_no_blocked_waiter {cfg : Cfg} {s : State} (hr : Reach cf
     have := (hi.wf.linked _).1 (hw.fl f hph hbz)
     rw [hempty] at this; cases this
 
+/-! non-vacuity of (c): thread 0 has released (its `fetch_and` read `HAS_QUEUED`) and is about to
+take the list lock in `wake_next`; thread 1 is parked without a token; the lock is free. -/
+
+def schedRel : List (Tid × Nat) := schedPark ++ [(0,0),(0,0)]
+
+theorem nlw_hypotheses_reachable :
+    ∃ s, Reach {} s ∧ s.word.locked = false ∧ ParkedBlocked s 1 ∧ PreWake s 0 := by
+  have he : ∃ s, exec {} (init progPark) schedRel = some s := by
+    cases h : exec {} (init progPark) schedRel with
+    | none => exact absurd h (by decide)
+    | some s => exact ⟨s, rfl⟩
+  obtain ⟨s, hs⟩ := he
+  refine ⟨s, execOf_reach _ _ _ (ReachOf.init ⟨progPark, rfl⟩) hs, ?_⟩
+  have h1 : ((exec {} (init progPark) schedRel).map fun s =>
+      (s.word.locked, (s.th 1).pc, s.token 1, (s.th 0).pc)) = some (false, .wPark, false, .llSwap .wakeNext) := by
+    decide
+  rw [hs] at h1
+  simp only [Option.map_some, Option.some.injEq, Prod.mk.injEq] at h1
+  exact ⟨h1.1, ⟨Or.inl h1.2.1, h1.2.2.1⟩, Or.inl (by rw [h1.2.2.2]; rfl)⟩
+
+example : ∃ s hd rest, Reach {} s ∧ s.wl.queue = hd :: rest := by
+  obtain ⟨s, hr, hf, hb, _⟩ := nlw_hypotheses_reachable
+  obtain ⟨hd, rest, hq, _⟩ := mutex_no_lost_wakeup hr hf (Or.inl ⟨1, hb⟩)
+  exact ⟨s, hd, rest, hr, hq⟩
+
+/-- the state in which every program has ended is quiescent (and satisfies the corollary's hypotheses) -/
+example : Reach {} (init fun _ => []) ∧ Quiescent {} (init fun _ => []) ∧ (init fun _ => []).word.locked = false :=
+  ⟨ReachOf.init ⟨_, rfl⟩, by intro t l s' h; simp [next, init, nIdle] at h, rfl⟩
+
 end MutexTheorems
 
 /-! ## HybridRwLock -/
